@@ -583,4 +583,8 @@ func c15AsyncRegistration(c *Ctx) {
 		})
 	}
 	c.Floor("C15.Q2b-async-registration", 1)
+	// Close waits for running syncs, a sync waits for the distributor to take its event, and the distributor hands each
+	// event to every listener: a listener that is not being read must never block it, i.e. listener queues are unbounded
+	listenerQueuesUnbounded(c, "C15.Q3-distributor-never-blocks-on-listener")
+	c.Floor("C15.Q3-distributor-never-blocks-on-listener", 2)
 }
